@@ -298,6 +298,11 @@ func (h *H) FireTimer(name string, wait time.Duration) bool {
 	return false
 }
 
+// SymbolicMapOrder makes the starting position of the next n map range
+// statements executed by the code under test a symbolic choice (Go randomises
+// it). Natively the runtime picks; replays of such paths are retried.
+func (h *H) SymbolicMapOrder(n int) {}
+
 // SymbolicSched turns on symbolic scheduling with the given preemption bound.
 // Natively the recorded preemption points (notes of the replay record) are
 // turned into pauses: a goroutine reaching such a verifhook.Point sleeps so
@@ -454,4 +459,13 @@ func (h *H) RestoreBackup(file, dir string) {
 	}
 	defer f.Close()
 	_ = db.Load(f, 16)
+}
+
+// Preload writes a raw key/value pair into the store (index states that no
+// short history produces, e.g. change logs with sequence gaps).
+func (h *H) Preload(db *badger.DB, key, val []byte) {
+	err := db.Update(func(txn *badger.Txn) error { return txn.Set(key, val) })
+	if err != nil {
+		panic(rejected{"preload: " + err.Error()})
+	}
 }
